@@ -13,6 +13,15 @@ class ToolError(Exception):
     pass
 
 
+def _die_with_parent():
+    """children (TLC, harness shards) must not outlive a killed driver"""
+    try:
+        import ctypes, signal
+        ctypes.CDLL("libc.so.6", use_errno=True).prctl(1, signal.SIGKILL)
+    except Exception:
+        pass
+
+
 def log(*a):
     print(*a, file=sys.stderr, flush=True)
 
@@ -42,30 +51,51 @@ class Ctx:
     # ------------------------------------------------------------------ build
     def build(self):
         env = dict(os.environ, CARGO_NET_OFFLINE="true")
+        # bin/seedtest temporarily applies a seeded change to /repo under an exclusive lock; an unrelated check
+        # started meanwhile waits here so that it is built from the tree it is meant to judge
+        lock = None
+        if not os.environ.get("VERIF_NOLOCK"):
+            try:
+                import fcntl
+                os.makedirs("/verif/work", exist_ok=True)
+                lock = open("/verif/work/.repo.lock", "w")
+                fcntl.flock(lock, fcntl.LOCK_SH)
+            except OSError:
+                lock = None
         r = subprocess.run(["cargo", "build"], cwd=HARNESS, env=env, stdout=subprocess.PIPE,
                            stderr=subprocess.STDOUT, text=True)
+        if lock is not None:
+            lock.close()
         if r.returncode != 0:
             log(r.stdout[-4000:])
             raise ToolError("harness build failed (does /repo still compile with feature verif-hooks?)")
 
     # ------------------------------------------------------------------ TLC model checking
-    def tlc_mc(self, name, cfg=None, workers=None, timeout=3600, extra=()):
-        """Run spec/mc/<name>.tla with <cfg>; returns list of CASE objects printed by the model."""
-        return self.tlc_mc_path(name, os.path.join(ROOT, "spec", "mc", (cfg or name) + ".cfg"), workers, timeout, extra)
+    def tlc_mc(self, name, cfg=None, workers=None, timeout=3600, extra=(), max_cases=None):
+        """Run spec/mc/<name>.tla with <cfg>; returns list of CASE objects printed by the model
+        (every k-th one if there are more than max_cases: the model is still explored completely)."""
+        return self.tlc_mc_path(name, os.path.join(ROOT, "spec", "mc", (cfg or name) + ".cfg"), workers, timeout, extra, max_cases=max_cases)
 
-    def tlc_mc_path(self, name, cfg, workers=None, timeout=3600, extra=(), quiet=False):
+    def tlc_mc_path(self, name, cfg, workers=None, timeout=3600, extra=(), quiet=False, max_cases=None):
         tla = os.path.join(ROOT, "spec", "mc", name + ".tla")
         workers = workers or (4 if self.tier == "quick" else 8)
         out = os.path.join(self.dir, f"mc_{os.path.basename(cfg)}.out")
         t = time.time()
         with open(out, "w") as f:
             r = subprocess.run([os.path.join(ROOT, "bin", "tlcrun"), str(workers), cfg, tla, "-coverage", "1", *extra],
-                               stdout=f, stderr=subprocess.STDOUT, timeout=timeout)
+                               stdout=f, stderr=subprocess.STDOUT, timeout=timeout, preexec_fn=_die_with_parent)
         cases, states, gen, ok = [], 0, 0, False
         self.hcases = []
         err = []
+        stride, ncase = 1, 0
+        if max_cases:
+            total = sum(1 for line in open(out, errors="replace") if line.startswith('<<"CASE", '))
+            stride = max(1, -(-total // max_cases))
         for line in open(out, errors="replace"):
             if line.startswith('<<"CASE", '):
+                ncase += 1
+                if (ncase - 1) % stride:
+                    continue
                 inner = line.strip()[len('<<"CASE", '):-2]
                 cases.append(json.loads(json.loads(inner)))
             elif line.startswith('<<"HCASE", '):
@@ -88,7 +118,9 @@ class Ctx:
         return cases
 
     # ------------------------------------------------------------------ harness
-    def harness(self, engine, cases, tag="", extra=(), timeout=3600, shards=1):
+    def harness(self, engine, cases, tag="", extra=(), timeout=3600, shards=1, crash_is_data=False):
+        """crash_is_data: the process under test being killed by a signal (SIGBUS, SIGSEGV, abort) is recorded as a
+        `crash` event of the case that was running (the trace is written through event by event) and the shard goes on."""
         for i, c in enumerate(cases):
             c.setdefault("id", i)
         cf = os.path.join(self.dir, f"{engine}{tag}.cases.ndjson")
@@ -105,19 +137,53 @@ class Ctx:
                 for c in cases[k::shards]:
                     f.write(json.dumps(c, separators=(",", ":")) + "\n")
             parts.append((pcf, ptf))
-        procs = [subprocess.Popen([VH, engine, "--cases", pcf, "--out", ptf, "--seed", str(self.seed), "--tier", self.tier, *extra],
-                                  stdout=subprocess.PIPE, stderr=subprocess.PIPE, text=True) for pcf, ptf in parts]
+        henv = dict(os.environ, VH_FLUSH="1") if crash_is_data else dict(os.environ)
+        def spawn(pcf, ptf):
+            return subprocess.Popen([VH, engine, "--cases", pcf, "--out", ptf, "--seed", str(self.seed), "--tier", self.tier, *extra],
+                                    stdout=subprocess.PIPE, stderr=subprocess.PIPE, text=True, preexec_fn=_die_with_parent, env=henv)
+        procs = [spawn(pcf, ptf) for pcf, ptf in parts]
         last = ""
-        for p in procs:
-            try:
-                so, se = p.communicate(timeout=timeout)
-            except subprocess.TimeoutExpired:
-                for q in procs:
-                    q.kill()
-                raise ToolError(f"harness engine {engine} timed out")
-            if p.returncode != 0:
-                log(se[-3000:])
-                raise ToolError(f"harness engine {engine} exited {p.returncode}")
+        for k, p in enumerate(procs):
+            pcf, ptf = parts[k]
+            ncrash = 0
+            while True:
+                try:
+                    so, se = p.communicate(timeout=timeout)
+                except subprocess.TimeoutExpired:
+                    for q in procs:
+                        q.kill()
+                    raise ToolError(f"harness engine {engine} timed out")
+                if p.returncode < 0 and crash_is_data and ncrash < 200:
+                    # killed by a signal: attribute it to the case whose `reset` was written last, continue after it
+                    ncrash += 1
+                    lines = open(ptf).read().splitlines()
+                    while lines and not lines[-1].endswith("}"):
+                        lines.pop()            # a line cut off by the kill
+                    ids = [json.loads(x)["id"] for x in lines if '"ev":"reset"' in x]
+                    shard_cases = [json.loads(x) for x in open(pcf) if x.strip()]
+                    done = 0
+                    if ids:
+                        done = next((i for i, c in enumerate(shard_cases) if c["id"] == ids[-1]), len(shard_cases) - 1) + 1
+                    lines.append(json.dumps(dict(ev="crash", signal=-p.returncode), separators=(",", ":")))
+                    with open(ptf + ".acc", "a") as acc:
+                        acc.write("\n".join(lines) + "\n")
+                    rest = shard_cases[done:]
+                    if not rest or not ids:
+                        open(ptf, "w").close()
+                        break
+                    with open(pcf, "w") as f:
+                        for c in rest:
+                            f.write(json.dumps(c, separators=(",", ":")) + "\n")
+                    p = spawn(pcf, ptf)
+                    continue
+                if p.returncode != 0:
+                    log(se[-3000:])
+                    raise ToolError(f"harness engine {engine} exited {p.returncode}")
+                break
+            if os.path.exists(ptf + ".acc"):
+                with open(ptf + ".acc", "a") as acc:
+                    acc.write(open(ptf).read())
+                os.replace(ptf + ".acc", ptf)
             last = se.strip().splitlines()[-1] if se.strip() else ""
         with open(tf, "w") as out:
             for pcf, ptf in parts:
@@ -138,7 +204,7 @@ class Ctx:
         out = chunk + ".tvout"
         with open(out, "w") as f:
             subprocess.run([os.path.join(ROOT, "bin", "tlcrun"), "1", cfg, tla], stdout=f,
-                           stderr=subprocess.STDOUT, env=env, timeout=7200)
+                           stderr=subprocess.STDOUT, env=env, timeout=7200, preexec_fn=_die_with_parent)
         res, vio = None, None
         for line in open(out, errors="replace"):
             if line.startswith('<<"TVRESULT", '):
